@@ -15,7 +15,7 @@ one() {
   d=$(mktemp -d $2/w.XXXXXX)
   rsync -a --exclude .git /repo/ $d/src/
   cp "$2/m_$b/$id.go.mut" "$d/src/$f"
-  fired=$(printf '%s\n' C01 C02 C03 C04 C05 C06 C07 C08 C09 C10 C11 C12 C13 C14 C15 C16 C17 C18 C19 C20 | xargs -P 4 -I{} sh -c "/verif/bin/xcheck -prop {} -repo $d/src -verif $3 2>&1 | grep -E '^(VIOLATED|UNDECIDED|CHECKER)' | head -2 | sed 's/ at .*//' | tr '\n' ';'" | tr -s ';' | tr '\n' ' ')
+  fired=$(/verif/bin/xcheck -prop all -repo $d/src -verif $3 2>&1 | grep -E '^(VIOLATED|UNDECIDED|CHECKER)' | head -4 | sed 's/ at .*//' | tr '\n' ';')
   if [ -n "$(echo $fired | tr -d ' ;')" ]; then st=caught; else st=SURVIVED; fired=-; fi
   printf '%s\t%s\t%s\t%s\t%s\t%s\t%s\n' "$id" "$f" "$line" "$op" "$desc" "$st" "$fired"
   rm -rf $d
